@@ -619,7 +619,8 @@ class GetDescriptorHandlerMux(Elaboratable):
                 handler.start_position  .eq(self.start_position),
             ]
             stall_latch = Signal(name=f"stall_latch_{i}")
-            m.d.comb += stalled[i].eq(handler.stall | stall_latch)
+            # (A stall latched for a previous request doesn't apply to a request that's just starting.)
+            m.d.comb += stalled[i].eq(handler.stall | (stall_latch & ~self.start))
             with m.If(self.start | self.stall):
                 m.d.sync += stall_latch.eq(0)
             with m.If(handler.stall & ~self.stall):
